@@ -602,8 +602,17 @@ func main() {
 	r.Set("states", states)
 	r.Set("transitions", trans)
 	if r.ReplayPath != "" {
+		var rp struct {
+			Case string `json:"case"`
+		}
+		r.LoadReplay(&rp)
+		if rp.Case != "" {
+			replayOnly = rp.Case
+			runSizes(r)
+		}
 		r.Finish()
 	}
+	runSizes(r)
 
 	// phase 2: all insertion permutations of every reached content (<= 6 keys) give one root;
 	// phase 3: proof tampering for every reached content and every alphabet key.
